@@ -3,7 +3,7 @@ import FsutilModel.PruneSyn
 import FsutilModel.Model.Filter
 /-! # C10 — Filtered walk; pruning is unobservable -/
 namespace Fsm.C10
-open P
+open P F
 
 /-- Core of pruning soundness for the parent-result matcher, for every pattern list (patterns
 abstracted to their match predicate), every directory `d` and every descendant `q` evaluated with
@@ -119,5 +119,78 @@ theorem exec_prune_sound (ps : List P.Pat) (hps : ps ≠ []) (Ip : List Bool) (h
   obtain ⟨q, hq⟩ := List.exists_mem_of_ne_nil chain hne
   exact Pr.prune_sound (ps.map toAbs) Ip d hlenA hv Below hS' chain hB _ (by rw [hl0]; simp) (Pr.Le_refl _)
     (Rel_refl d _ _ (by rw [hl0]; simp)) q hq trivial
+
+theorem prefix_of_append_left {α : Type} [DecidableEq α] (a b c : List α) (h : a <+: b) : a <+: b ++ c :=
+  h.trans (List.prefix_append b c)
+
+/-- a proper prefix of `d ++ [x]` is a prefix of `d` -/
+theorem prefix_of_proper_prefix_snoc {α : Type} (a d : List α) (x : α) (h : a <+: d ++ [x]) (hne : a ≠ d ++ [x]) : a <+: d := by
+  obtain ⟨t, ht⟩ := h
+  cases t.eq_nil_or_concat with
+  | inl h0 => subst h0; simp at ht; exact absurd ht hne
+  | inr h1 =>
+    obtain ⟨t', y, rfl⟩ := h1
+    have : a ++ t' ++ [y] = d ++ [x] := by simpa [List.append_assoc] using ht
+    have := List.append_inj_left' this rfl
+    exact ⟨t', this⟩
+
+/-- **The syntactic prune test implies the semantic condition for literal and `t/**` patterns** (the pattern kinds that
+`onlyPrefixIncludes` admits and that patternmatcher matches by string comparison): if for every positive pattern the
+directory `d/` is not a prefix of the pattern's literal base followed by `/`, then no positive pattern matches a path
+below `d` without matching `d`. -/
+theorem literal_prune_condition (ps : List P.Pat) (d : List Nat)
+    (hshape : ∀ p ∈ ps, p.neg = false →
+      (p.mt = .exact ∧ withoutTrailingGlob true p = p.text) ∨
+      (p.mt = .prefix_ ∧ p.text = withoutTrailingGlob true p ++ [47, 42, 42]))
+    (hprune : ∀ p ∈ ps, p.neg = false → (d ++ [47]).isPrefixOf (withoutTrailingGlob true p ++ [47]) = false) :
+    ∀ q, (d ++ [47]).isPrefixOf q = true → ∀ p ∈ ps, p.neg = false → patMatch p q = true → patMatch p d = true := by
+  intro q hq p hp hn hm
+  have hqd : d ++ [47] <+: q := List.isPrefixOf_iff_prefix.mp hq
+  have hnp : ¬ (d ++ [47] <+: withoutTrailingGlob true p ++ [47]) := by
+    intro h; have := hprune p hp hn; rw [List.isPrefixOf_iff_prefix.mpr h] at this; cases this
+  rcases hshape p hp hn with ⟨hmt, hbase⟩ | ⟨hmt, htext⟩
+  · -- exact: q is the pattern text itself, so d/ would be a prefix of it
+    unfold patMatch at hm
+    simp only [hmt, decide_eq_true_eq] at hm
+    exfalso; apply hnp
+    rw [hbase, ← hm]
+    exact prefix_of_append_left _ _ _ hqd
+  · -- t/**: matches exactly the paths below t/
+    generalize hw : withoutTrailingGlob true p = t at *
+    have htake : p.text.take (p.text.length - 2) = t ++ [47] := by
+      rw [htext]
+      have e1 : t ++ [47, 42, 42] = (t ++ [47]) ++ [42, 42] := by simp
+      have e2 : (t ++ [47, 42, 42]).length - 2 = (t ++ [47]).length := by simp
+      rw [e2, e1, List.take_left']
+      rfl
+    unfold patMatch at hm ⊢
+    simp only [hmt, htake] at hm ⊢
+    have hqt : t ++ [47] <+: q := List.isPrefixOf_iff_prefix.mp hm
+    rcases List.prefix_or_prefix_of_prefix hqd hqt with h | h
+    · exact absurd h hnp
+    · have hne : t ++ [47] ≠ d ++ [47] := by
+        intro e; apply hnp; rw [e]; exact List.prefix_refl _
+      exact List.isPrefixOf_iff_prefix.mpr (prefix_of_proper_prefix_snoc _ d 47 h hne)
+
+
+/-- **Pruning below a directory is unobservable for literal and `t/**` include lists, from the syntactic test alone**: if the
+executable matcher says "no match" at `d` and the prune test of filter.go passes (no positive pattern's base lies at or below
+`d`), then along every chain of paths below `d` evaluated with threaded parent results the verdict stays "no match". -/
+theorem literal_prune_unobservable (ps : List P.Pat) (hps : ps ≠ []) (Ip : List Bool) (hIp : Ip.length = ps.length) (d : List Nat)
+    (hv : (matchesUPR ps d Ip).1 = false)
+    (hshape : ∀ p ∈ ps, p.neg = false →
+      (p.mt = .exact ∧ withoutTrailingGlob true p = p.text) ∨
+      (p.mt = .prefix_ ∧ p.text = withoutTrailingGlob true p ++ [47, 42, 42]))
+    (hprune : ∀ p ∈ ps, p.neg = false → (d ++ [47]).isPrefixOf (withoutTrailingGlob true p ++ [47]) = false) :
+    ∀ (chain : List (List Nat)), (∀ q ∈ chain, (d ++ [47]).isPrefixOf q = true) → chain ≠ [] →
+      (chain.foldl (fun (acc : List Bool × Bool) x => let r := matchesUPR ps x acc.1; (r.2, acc.2 || r.1))
+        ((matchesUPR ps d Ip).2, false)).2 = false :=
+  exec_prune_sound ps hps Ip hIp d hv (fun q => (d ++ [47]).isPrefixOf q = true)
+    (fun q hq p hp hn hm => literal_prune_condition ps d hshape hprune q hq p hp hn hm)
+
+/-- non-vacuity: the parsed patterns `a/b` and `a/**` have exactly these shapes -/
+example : (parsePattern [97, 47, 98]).map (fun p => (p.mt, decide (withoutTrailingGlob true p = p.text))) = some (.exact, true) := by decide
+example : (parsePattern [97, 47, 42, 42]).map (fun p => (p.mt, decide (p.text = withoutTrailingGlob true p ++ [47, 42, 42]))) = some (.prefix_, true) := by
+  decide
 
 end Fsm.C10
